@@ -192,7 +192,15 @@ def calcUnnormalizedNForQuaternion (q : Quaternion K) : Mat43 K :=
   ⟨⟨ne1, ne2, ne3⟩, ⟨e0, e3, ne2⟩, ⟨ne3, e0, e1⟩, ⟨e2, ne1, e0⟩⟩
 
 /-- `calcUnnormalizedNDotForQuaternion(qdot)` -/
-def calcUnnormalizedNDotForQuaternion (qd : Quaternion K) : Mat43 K := calcUnnormalizedNForQuaternion qd
+def calcUnnormalizedNDotForQuaternion (qd : Quaternion K) : Mat43 K :=
+  let ed0 := qd.w / 2
+  let ed1 := qd.x / 2
+  let ed2 := qd.y / 2
+  let ed3 := qd.z / 2
+  let ned1 := -ed1
+  let ned2 := -ed2
+  let ned3 := -ed3
+  ⟨⟨ned1, ned2, ned3⟩, ⟨ed0, ed3, ned2⟩, ⟨ned3, ed0, ed1⟩, ⟨ed2, ned1, ed0⟩⟩
 
 /-- `calcUnnormalizedNInvForQuaternion(q)` -/
 def calcUnnormalizedNInvForQuaternion (q : Quaternion K) : Mat34 K :=
